@@ -30,6 +30,8 @@ theorem foldl_minLen_le (ρ : Env) (x : String) (fs : List GFact) (m : Nat) (hm 
         · simp only [e, if_false]; exact hm
       | lenGeLen v p => exact hm
       | idxIn i v => exact hm
+      | varLeLen i v => exact hm
+      | defPlus i k t => exact hm
     · intro g hg
       exact h g (List.mem_cons_of_mem _ hg)
 
@@ -38,6 +40,47 @@ theorem minLen_le {ρ : Env} {fs : List GFact} (h : ∀ f ∈ fs, f.holds ρ) (x
 
 theorem mem_of_contains {fs : List GFact} {f : GFact} (h : fs.contains f = true) : f ∈ fs :=
   List.contains_iff_mem.mp h
+
+theorem nonnegVar_sound {ρ : Env} {fs : List GFact} (h : ∀ f ∈ fs, f.holds ρ) {i : String}
+    (hb : nonnegVar fs i = true) : 0 ≤ ρ.int i := by
+  unfold nonnegVar at hb
+  rw [List.any_eq_true] at hb
+  obtain ⟨f, hf, hp⟩ := hb
+  cases f with
+  | defPlus j k t =>
+    simp only [Bool.and_eq_true, decide_eq_true_eq] at hp
+    have := h _ hf
+    simp only [GFact.holds] at this
+    obtain ⟨e, _, he⟩ := this
+    rw [← hp.1, he]
+    exact Int.natCast_nonneg _
+  | lenGe v n => simp at hp
+  | lenGeLen v p => simp at hp
+  | idxIn i v => simp at hp
+  | varLeLen i v => simp at hp
+
+theorem constLeVar_sound {ρ : Env} {fs : List GFact} (h : ∀ f ∈ fs, f.holds ρ) {a : Nat} {i : String}
+    (hb : constLeVar fs a i = true) : (a : Int) ≤ ρ.int i := by
+  unfold constLeVar at hb
+  rw [List.any_eq_true] at hb
+  obtain ⟨f, hf, hp⟩ := hb
+  cases f with
+  | defPlus j k t =>
+    cases t with
+    | u32 => simp at hp
+    | wide =>
+      simp only [Bool.and_eq_true, decide_eq_true_eq] at hp
+      have := h _ hf
+      simp only [GFact.holds, NumT.wrap] at this
+      obtain ⟨e, he, hi⟩ := this
+      rw [← hp.1.1, hi]
+      have : (k + e) % 18446744073709551616 = k + e := Nat.mod_eq_of_lt (by omega)
+      rw [this]
+      omega
+  | lenGe v n => simp at hp
+  | lenGeLen v p => simp at hp
+  | idxIn i v => simp at hp
+  | varLeLen i v => simp at hp
 
 theorem leLen_sound {ρ : Env} {fs : List GFact} (h : ∀ f ∈ fs, f.holds ρ) {x : String} {b : Bound}
     (hb : leLen fs x b = true) : ∃ n, b.eval ρ = some n ∧ 0 ≤ n ∧ n ≤ ρ.len x := by
@@ -55,10 +98,14 @@ theorem leLen_sound {ρ : Env} {fs : List GFact} (h : ∀ f ∈ fs, f.holds ρ) 
       simp only [GFact.holds] at this
       omega
   | var i =>
-    simp only [leLen] at hb
-    have := h _ (mem_of_contains hb)
-    simp only [GFact.holds] at this
-    exact ⟨ρ.int i, rfl, by omega, by omega⟩
+    simp only [leLen, Bool.or_eq_true, Bool.and_eq_true] at hb
+    rcases hb with hb | ⟨hb1, hb2⟩
+    · have := h _ (mem_of_contains hb)
+      simp only [GFact.holds] at this
+      exact ⟨ρ.int i, rfl, by omega, by omega⟩
+    · have h1 := h _ (mem_of_contains hb1)
+      simp only [GFact.holds] at h1
+      exact ⟨ρ.int i, rfl, nonnegVar_sound h hb2, h1⟩
   | varPlus i k =>
     simp only [leLen, Bool.and_eq_true, decide_eq_true_eq] at hb
     have := h _ (mem_of_contains hb.2)
@@ -103,6 +150,10 @@ theorem leBound_sound {ρ : Env} {fs : List GFact} (h : ∀ f ∈ fs, f.holds ρ
   · -- const, lenOf
     obtain ⟨e, hk⟩ := hb
     subst e
+    simp only [Bound.eval, Option.some.injEq] at ha hbv
+    omega
+  · -- const, var
+    have := constLeVar_sound h hb
     simp only [Bound.eval, Option.some.injEq] at ha hbv
     omega
   · -- const, lenMinus
